@@ -100,8 +100,14 @@ def reshape(req):
     # loaded above when creating inventory objects.  The reshape method below
     # is responsible for ensuring that the resource providers and their
     # generations do not conflict.
-    allocation_objects = allocation.create_allocation_list(
-        context, allocations, consumers)
+    try:
+        allocation_objects = allocation.create_allocation_list(
+            context, allocations, consumers)
+    except Exception:
+        # Do not leave auto-created consumers behind when the request is
+        # rejected before anything is written.
+        with excutils.save_and_reraise_exception():
+            allocation.delete_consumers(new_consumers_created)
 
     @db_api.placement_context_manager.writer
     def _update_consumers_and_create_allocations(ctx):
@@ -143,6 +149,12 @@ def reshape(req):
     except exception.InvalidInventory as exc:
         raise webob.exc.HTTPConflict(
             'Unable to allocate inventory: %(error)s' % {'error': exc})
+
+    # Consumers we have just created but for which nothing was allocated must
+    # not stay: a consumer exists only while it holds allocations.
+    allocation.delete_consumers(
+        [consumer for consumer in new_consumers_created
+         if not allocations[consumer.uuid]['allocations']])
 
     req.response.status = 204
     req.response.content_type = None
